@@ -439,6 +439,15 @@ class Life:
                     feepay = {"egld": self.fee} if self.feetok == 0 else {"esdts": [(self.feetok, 0, self.fee)]}
                     if r.chance(1, 8):
                         feepay = {"egld": self.fee + 1} if self.feetok == 0 else {"esdts": [(self.feetok, 0, self.fee - 1)]}
+                    elif r.chance(1, 8):
+                        # the exact fee in another token, with an NFT nonce, or split over two transfers
+                        kk = r.below(3)
+                        if kk == 0:
+                            feepay = {"esdts": [(OTHER_TOK, 0, self.fee)]}
+                        elif kk == 1:
+                            feepay = {"esdts": [(OTHER_TOK, 1, self.fee)]}      # a non-fungible payment (accounts hold OTHER_TOK nonce 1)
+                        elif self.feetok != 0 and self.fee >= 2:
+                            feepay = {"esdts": [(self.feetok, 0, self.fee - 1), (self.feetok, 0, 1)]}
                     res = t.call(x, "confirmNft", **feepay)
                     if res["st"] == "ok":
                         paid_nft.add(x)
